@@ -10,6 +10,8 @@ import Mathlib.Tactic.FieldSimp
 import Mathlib.Data.Complex.Basic
 import Mathlib.LinearAlgebra.Matrix.NonsingularInverse
 import Mathlib.Analysis.Normed.Algebra.MatrixExponential
+import Mathlib.Analysis.Matrix.Order
+import Mathlib.Analysis.Matrix.PosDef
 /-! helper lemmas for C18 -/
 open Matrix
 namespace QM.C18
@@ -484,16 +486,41 @@ end extract2
 section matlevel
 variable {K : Type} [Field K] [StarRing K] [HasI K] {d : Nat}
 
+/-- the generated index glue of `calc_h_mat` instantiates the generic loop to the reference formula `hCoef` on the
+whole basis (breaks when the source's loop range / sign / conjugation / coefficient changes) -/
+theorem calcHMatCb_eq_ref (B : Basis K d) (L : Mat K (d * d) (d * d)) :
+    calcHMatCb B L = msum (d * d) fun a => (B.get a).smul (hCoef B L a) := by
+  apply Mat.ext'; intro i j
+  simp [calcHMatCb, extractG, coefG, pairG, hCoef, QGen.C18.hLoopStart, QGen.C18.hDeltaAt, QGen.C18.hNumImag,
+    QGen.C18.hDen, QGen.C18.hNegSecond, QGen.C18.hConjSecond, two, one_add_one_eq_two]
+
+/-- the generated index glue of `calc_j_mat` instantiates the generic loop to the reference formula `jCoef` on the whole
+basis with `delta` exactly on element 0 -/
+theorem calcJMatCb_eq_ref (B : Basis K d) (L : Mat K (d * d) (d * d)) :
+    calcJMatCb B L = msum (d * d) fun a => (B.get a).smul (jCoef B L a (decide (a.val = 0))) := by
+  apply Mat.ext'; intro i j
+  simp only [calcJMatCb, extractG, coefG, pairG, jCoef, QGen.C18.jLoopStart, QGen.C18.jDeltaAt, QGen.C18.jNumImag,
+    QGen.C18.jDen, QGen.C18.jNegSecond, QGen.C18.jConjSecond, two, msum_get]
+  apply Finset.sum_congr rfl; intro a _
+  by_cases ha : a.val = 0
+  · simp [ha, one_add_one_eq_two]
+  · have ha' : ¬ (0 = a.val) := fun h => ha h.symm
+    simp [ha, ha', one_add_one_eq_two]
+
+theorem calcKMatCb_get (B : Basis K d) (L : Mat K (d * d) (d * d)) (a b : Fin (d * d - 1)) :
+    (calcKMatCb B L).get a b = trMul L (kron (B.get (suc a)) (conjM (B.get (suc b)))) := by
+  simp [calcKMatCb, QGen.C18.kConjSecond]
+
 theorem calcHMatCb_toM (B : Basis K d) (L : Mat K (d * d) (d * d)) :
     (calcHMatCb B L).toM = ∑ a, hCoef B L a • Bm B a := by
-  unfold calcHMatCb
+  rw [calcHMatCb_eq_ref]
   rw [toM_msum]
   apply Finset.sum_congr rfl; intro a _
   rw [Mat.toM_smul]; rfl
 
 theorem calcJMatCb_toM (B : Basis K d) (L : Mat K (d * d) (d * d)) :
     (calcJMatCb B L).toM = ∑ a, jCoef B L a (decide (a.val = 0)) • Bm B a := by
-  unfold calcJMatCb
+  rw [calcJMatCb_eq_ref]
   rw [toM_msum]
   apply Finset.sum_congr rfl; intro a _
   rw [Mat.toM_smul]; rfl
@@ -602,6 +629,52 @@ theorem expLoop_toM {n : Nat} (L : Mat ℝ n n) (k : Nat) :
     rw [Finset.sum_range_succ, ← ih2, ← h1]
     simp [expLoop]
 end expo_mathlib
+
+section choi
+open scoped ComplexOrder
+variable {d : Nat}
+
+/-- `V[(i,k), a] = B_{a+1}[k, i]`: the flattened traceless basis elements as columns -/
+def vecB (B : Basis ℂ d) : Matrix (Fin (d * d)) (Fin (d * d - 1)) ℂ :=
+  Matrix.of fun r a => (B.get (suc a)).get (p2 r) (p1 r)
+
+theorem choiCb_kPart (B : Basis ℂ d) (k : Mat ℂ (d * d - 1) (d * d - 1)) :
+    (choiCb (kPart B k)).toM = vecB B * k.toM * (vecB B)ᴴ := by
+  ext r c
+  simp only [choiCb, kPart, Mat.toM_apply, Mat.get_ofFn, msum_get, smul_get, kron_get, conjM_get, p1_pr, p2_pr,
+    Matrix.mul_apply, Matrix.conjTranspose_apply, vecB, Matrix.of_apply, Finset.sum_mul]
+  rw [Finset.sum_comm]
+  refine Finset.sum_congr rfl fun b _ => Finset.sum_congr rfl fun a _ => ?_
+  ring
+
+theorem choiCb_kPart_psd (B : Basis ℂ d) (k : Mat ℂ (d * d - 1) (d * d - 1)) (hk : k.toM.PosSemidef) :
+    (choiCb (kPart B k)).toM.PosSemidef := by
+  rw [choiCb_kPart]
+  exact hk.mul_mul_conjTranspose_same (vecB B)
+
+theorem vecB_orthonormal (B : Basis ℂ d) (z : Fin (d * d)) (s : ℂ) (hB : ONH0 B z s) :
+    (vecB B)ᴴ * vecB B = 1 := by
+  ext a b
+  have h := hB.orth (suc a) (suc b)
+  rw [← hB.herm (suc a)] at h
+  simp only [Matrix.trace, Matrix.diag_apply, Matrix.mul_apply, Matrix.conjTranspose_apply] at h
+  simp only [Matrix.mul_apply, Matrix.conjTranspose_apply, vecB, Matrix.of_apply, Matrix.one_apply]
+  rw [sum_pairs]
+  simp only [p1_pr, p2_pr]
+  rw [show (if a = b then (1 : ℂ) else 0) = if suc a = suc b then 1 else 0 by simp [suc_eq_iff]]
+  rw [← h]
+  rfl
+
+theorem psd_of_choiCb_kPart_psd (B : Basis ℂ d) (z : Fin (d * d)) (s : ℂ) (hB : ONH0 B z s)
+    (k : Mat ℂ (d * d - 1) (d * d - 1)) (h : (choiCb (kPart B k)).toM.PosSemidef) : k.toM.PosSemidef := by
+  have h1 := h.conjTranspose_mul_mul_same (vecB B)
+  rw [choiCb_kPart] at h1
+  have h2 : (vecB B)ᴴ * (vecB B * k.toM * (vecB B)ᴴ) * vecB B
+      = ((vecB B)ᴴ * vecB B) * k.toM * ((vecB B)ᴴ * vecB B) := by
+    simp only [Matrix.mul_assoc]
+  rw [h2, vecB_orthonormal B z s hB, Matrix.one_mul, Matrix.mul_one] at h1
+  exact h1
+end choi
 
 section examples
 /-- the basis `{(1)}` of the one-dimensional system -/
